@@ -285,7 +285,7 @@ func runSeqhash(w *mon.W, c05 bool) {
 	}
 
 	// random longer inputs with explicit variant calls
-	nRand := w.Pick(1500, 20000)
+	nRand := w.Pick(6000, 40000)
 	maxLen := w.Pick(10000, 100000)
 	for i := 0; i < nRand; i++ {
 		id := fmt.Sprintf("rand-%d", i)
